@@ -460,7 +460,42 @@ func runC20(s *kernel.Sim) {
 	s.Go("director", func() {
 		defer func() { done = true }()
 		for i := 0; i < nops && !s.Violated(); i++ {
-			switch op := s.TaskChoose("director", "op", 14); {
+			switch op := s.TaskChoose("director", "op", 15); {
+			case op == 14 && running: // a forced update that the pool never answers (its caller set no deadline)
+				if !drainWaits(i) {
+					return
+				}
+				sp.Lock()
+				if sp.SilentNext == nil {
+					sp.SilentNext = map[string]int{}
+				}
+				sp.SilentNext["Update"] = 1
+				sp.Unlock()
+				waits++
+				s.GoBG(fmt.Sprintf("forcer%d", waits), func() { a.UpdatePeers(s.Ctx, sp) })
+				// whatever bound the agent puts on one round, two minutes are beyond it
+				s.Sleep("director", 2*time.Minute)
+				settle()
+				// is the way free for other rounds?  A second forced update (no deadline either) must get its turn;
+				// judged only if it is not merely waiting to be scheduled at the node or the pool
+				probe := make(chan error, 1)
+				waits++
+				s.GoBG(fmt.Sprintf("forcer%d", waits), func() { probe <- a.UpdatePeers(s.Ctx, sp) })
+				s.Sleep("director", time.Millisecond)
+				settle()
+				var perr error
+				returned := false
+				select {
+				case perr = <-probe:
+					returned = true
+				default:
+				}
+				s.TaskLog("director", "#%d forced update that is never answered; two minutes later a second one: returned=%v (%v)", i, returned, perr)
+				if !returned && !sp.Busy() && !node.Busy() {
+					s.Violate("forced_update", "a forced update that is never answered keeps every later update round from running", "#%d: two minutes after the pool failed to answer one forced update, another UpdatePeers is still waiting for its turn - and so is every tick of the keep-alive loop: the agent runs, sends nothing, and reports nothing", i)
+					return
+				}
+				// (not returned and busy: starved by the schedule so far, nothing to judge)
 			case op == 13 && running: // a forced update is still inside a slow pool when the next tick fires
 				if !drainWaits(i) {
 					return
@@ -481,7 +516,8 @@ func runC20(s *kernel.Sim) {
 					forced <- a.UpdatePeers(ctx, sp)
 				})
 				// (the pool takes between a third of an interval and a bit more than one: at least one tick fires meanwhile when it is more)
-				s.Sleep("director", interval/3+time.Duration(s.TaskChoose("director", "holdthirds", 4))*interval/3)
+				held := interval/3 + time.Duration(s.TaskChoose("director", "holdthirds", 4))*interval/3
+				s.Sleep("director", held)
 				close(hold)
 				s.Sleep("director", time.Millisecond)
 				settle()
@@ -491,6 +527,11 @@ func runC20(s *kernel.Sim) {
 				default:
 					s.Violate("forced_update", "a forced update does not return", "#%d: the pool answered it", i)
 					return
+				}
+				if ferr != nil && held >= 10*time.Second && strings.Contains(ferr.Error(), "deadline exceeded") {
+					// the pool took longer than the agent waits for any keep-alive (the loop's own are given up after
+					// ten seconds too): giving up is what keeps the token from being held for ever
+					ferr = nil
 				}
 				if ferr != nil {
 					s.Violate("forced_update", "a forced update of a running agent fails at a healthy pool", "#%d: UpdatePeers returned %v", i, ferr)
